@@ -252,3 +252,17 @@ def fmt(template, args):
     if has_sym(args):
         return SFmt(template, args if isinstance(args, tuple) else (args,))
     return template % args
+
+
+def contains(container, item):
+    ''' `item in container` without hashing a symbolic item: membership in ordinary sets / dict keys /
+    frozensets is decided by equality with each element (forking on symbolic equalities). '''
+    if has_sym(item) and type(container) in (set, frozenset, dict):
+        for k in container:
+            try:
+                if bool(k == item):
+                    return True
+            except TypeError:
+                pass
+        return False
+    return item in container
